@@ -1021,7 +1021,7 @@ class Machine:
                     self.event(st, "diverge", "assert:" + t["msg"], [], None, None)
                     return None
             else:
-                self.notes.append(("assert", t["msg"], fr.fn))
+                self.notes.append(("assert", t["msg"], fr.fn, c.e if isinstance(c, Int) else None))
                 # an overflow check of a subtraction that no dominating comparison makes redundant (a - b with a >= b not known)
                 e = c.e if isinstance(c, Int) else None
                 if e is not None and e.op == "not":
@@ -1508,6 +1508,18 @@ class Machine:
                 if ii:
                     return Int(ii[0], ii[1], E("cast", (v.e,), ii[0]))
                 return Opaque(v.e, ty)
+            if kind.startswith("Transmute") and isinstance(v, Adt) and len(v.fields) == 1 and isinstance(v.fields[0], (Int, Opaque, Ref, SliceRef, SymSlice)):
+                # a pointer newtype (NonNull, Unique) reinterpreted as the raw pointer it wraps: how Box<[T]> is dereferenced
+                inner = v.fields[0]
+                if isinstance(inner, Int) and ty.get("k") in ("ptr", "ref") and (ty.get("inner") or {}).get("k") == "slice":
+                    # Box<[T]> held in a symbolic struct: describe it like a symbolic Vec<T> field (content / pointer / length of that field)
+                    e_ = inner.e
+                    while e_.op == "field" and e_.args[1] in ("0", "pointer"):
+                        e_ = e_.args[0]
+                    content = E("vec_content", (e_,))
+                    return SymSlice(content, Int(self.ptr_bits, False, E("vec_ptr", (content,), self.ptr_bits)),
+                                    Int(self.ptr_bits, False, E("vec_len", (e_,), self.ptr_bits)))
+                return inner
             raise Unsupported("cast %s of %r" % (kind, v))
         if kind.startswith("PointerCoercion"):
             if "Unsize" in kind:
